@@ -226,6 +226,11 @@ pub fn oracle(name: &str, rng: &mut Rng, n: usize, tier: &str) -> OracleReport {
             garbage_program(rng)
         } else if name == "repr" && i % 4 == 1 {
             bls_point_program(rng)
+        } else if name == "restrict" && i % 3 == 1 {
+            let lines = progs::generate_run_softfork_args(rng, 0, "quick");
+            let l = &lines[rng.below(lines.len() as u64) as usize];
+            let w: Vec<&str> = l.split(' ').collect();
+            (trees::from_hex(w[6]).unwrap(), T::nil())
         } else if name == "repr" && i % 4 == 2 {
             progs::random_path_program(rng)
         } else if name == "hide" && i % 5 == 1 {
@@ -263,6 +268,9 @@ pub fn oracle(name: &str, rng: &mut Rng, n: usize, tier: &str) -> OracleReport {
         }
         match name {
             "budget" => {
+                if is_internal(&base) {
+                    rep.fail("budget_total", format!("{} budget=0 -> {:?} (neither a result nor an ordinary error: the budget cannot have been honoured)", d(), base.res));
+                }
                 // budget 0 means unlimited: identical to the largest budget
                 let m = run_full("chia", flags, u64::MAX, &prog, &env, "");
                 if m.res != base.res {
@@ -309,6 +317,20 @@ pub fn oracle(name: &str, rng: &mut Rng, n: usize, tier: &str) -> OracleReport {
                 }
             }
             "gc" => {
+                // garbage reclaimed *inside* a softfork guard that then exits: the guard's full restore must
+                // compose with the earlier GC restores (counts after the run)
+                if i % 4 == 3 {
+                    let blob = T::Atom(rng.bytes(600));
+                    let body = call(13, vec![call(14, vec![quote(blob.clone()), quote(blob)])]);
+                    let fl = flags & !(ENABLE_GC | NO_UNKNOWN_OPS);
+                    if let Some((g, _)) = guard_for(fl, *rng.pick(&[0i128, 1]), &body) {
+                        let a = run_full("chia", fl, 0, &g, &T::nil(), "");
+                        let b = run_full("chia", fl | ENABLE_GC, 0, &g, &T::nil(), "");
+                        if a.res != b.res || a.counts != b.counts {
+                            rep.fail("gc_guard", format!("{} nogc={:?}{:?} gc={:?}{:?}", desc(&g, &T::nil(), fl), a.res, a.counts, b.res, b.counts));
+                        }
+                    }
+                }
                 for f in [flags & !ENABLE_GC, flags] {
                     let a = run_full("chia", f & !ENABLE_GC, 0, &prog, &env, "");
                     let b = run_full("chia", f | ENABLE_GC, 0, &prog, &env, "");
@@ -361,6 +383,7 @@ pub fn oracle(name: &str, rng: &mut Rng, n: usize, tier: &str) -> OracleReport {
                         let known = r & CANONICAL_INTS != 0
                             && (flags | r) & NO_UNKNOWN_OPS == 0
                             && uses_softfork(prog)
+                            && softfork_ext_may_be_noncanonical(prog)
                             && match &with2.res {
                                 Ok(y) => without.res.as_ref().ok() == Some(y),
                                 Err(_) => true,
@@ -456,6 +479,42 @@ pub fn oracle(name: &str, rng: &mut Rng, n: usize, tier: &str) -> OracleReport {
         }
     }
     rep
+}
+
+/// finding K's shape: some `(softfork cost ext …)` form whose *extension* operand is a quoted atom that
+/// is not a canonical integer (redundant leading zero byte), or an extension operand that is computed
+/// (not a quoted atom: cannot be judged syntactically).  A literal canonical extension can never
+/// trigger K, whatever the cost operand is (a parse error of the cost operand is never swallowed).
+fn softfork_ext_may_be_noncanonical(t: &T) -> bool {
+    fn list(t: &T) -> Vec<&T> {
+        let mut v = vec![];
+        let mut c = t;
+        while let T::Pair(a, b) = c {
+            v.push(&**a);
+            c = b;
+        }
+        v
+    }
+    match t {
+        T::Atom(_) => false,
+        T::Pair(l, r) => {
+            let here = match &**l {
+                T::Atom(b) if b == &[36u8] => {
+                    let args = list(r);
+                    match args.get(1) {
+                        Some(T::Pair(q, v)) if **q == T::Atom(vec![1]) => match &**v {
+                            T::Atom(b) => !b.is_empty() && b[0] == 0 && (b.len() == 1 || b[1] & 0x80 == 0),
+                            T::Pair(..) => false,
+                        },
+                        Some(_) => true, // computed extension
+                        None => false,
+                    }
+                }
+                _ => false,
+            };
+            here || softfork_ext_may_be_noncanonical(l) || softfork_ext_may_be_noncanonical(r)
+        }
+    }
 }
 
 fn uses_softfork(t: &T) -> bool {
